@@ -14,7 +14,7 @@ PROPERTY_FILE = 'Properties/C17.v'
 THEOREMS = [
     'C17_check_entry_sound', 'C17_sweep_slice_sound', 'C17_records_cover_dictionary',
     'C17_truth_table_is_semantics',
-    'C17_normalize_shape', 'C17_lookup_returns_requested_function', 'C17_lookup_none_only_if_absent',
+    'C17_lookup_returns_requested_function', 'C17_lookup_none_only_if_absent',
     'C17_model_lookup_agrees_and_is_minimal',
 ]
 PARTIAL = {}
